@@ -234,7 +234,10 @@ TreeFindDrift(e, real) ==
 HitNames == {"Sweep", "Find", "FindErr", "Radius", "RadiusErr", "RadiusAt", "TieAtK", "QueryInData", "NonTrivial", "BuildFail",
              "linear", "cover", "man", "euc", "mink", "ham", "lat", "cont",
              "Heap", "HeapDrift", "HeapTlc", "Tree", "TreeDrift", "TreeFindDrift", "TreeFind",
-             "LinFind", "LinDrift",
+             "LinFind", "LinDrift", "N1cover", "N1linear", "Identcover", "Identlinear",
+             "EstN1clscover", "EstN1regcover", "EstN1clslinear", "EstN1reglinear",
+             "EstIdentclscover", "EstIdentregcover", "EstIdentclslinear", "EstIdentreglinear",
+             "EstWeightBeforeDistancecls", "EstWeightBeforeDistancereg", "EstViaFields", "EstDefaultMetric",
              "KnnPredict", "ClsPred", "RegPred", "EstErr", "EstUnconstrained", "EstTieAtK", "EstDistance", "EstFail", "EstSkipped"}
 
 Bump(h, d) == [x \in DOMAIN h |-> IF x \in DOMAIN d THEN h[x] + d[x] ELSE h[x]]
@@ -244,8 +247,15 @@ Account(e, clause, delta) ==
     /\ IF clause \in {"ok", "unconstrained"} THEN nbad' = nbad ELSE Bad(e, clause) /\ nbad' = nbad + 1
     /\ hits' = Bump(hits, delta)
 
+(* the boundary data sets named by the statement, counted when they pass: a single point
+   ("N1cover", "N1linear") and n >= 2 identical points ("Identcover", "Identlinear") *)
+SweepTags(e, c) ==
+    {"Sweep", e.backend, e.metric, e.src}
+      \cup (IF c = "ok" /\ e.n = 1 THEN {"N1" \o e.backend} ELSE {})
+      \cup (IF c = "ok" /\ e.n >= 2 /\ e.ident THEN {"Ident" \o e.backend} ELSE {})
+
 SweepStep(e, keys) == LET c == SweepClause(e, keys) IN
-    Account(e, c, One({"Sweep", e.backend, e.metric, e.src}) @@ SweepHits(e, keys, c))
+    Account(e, c, One(SweepTags(e, c)) @@ SweepHits(e, keys, c))
 
 HeapStep(e, run) == LET c == HeapClause(e, run) IN
     Account(e, c, [x \in {"Heap", "HeapDrift", "HeapTlc"} |->
@@ -267,9 +277,19 @@ LinStep(e) ==
                CASE x = "LinFind" -> 1
                  [] x = "LinDrift" -> IF ok /\ [j \in 1..Len(e.res) |-> e.res[j].i] # e.expect THEN 1 ELSE 0])
 
+(* boundary training sets and parameter-construction orders that were exercised and passed *)
+EstTags(e, c) ==
+    {"KnnPredict"}
+      \cup (IF c = "ok" /\ e.k >= 1 /\ e.n = 1 THEN {"EstN1" \o e.kind \o e.backend} ELSE {})
+      \cup (IF c = "ok" /\ e.k >= 1 /\ e.k <= e.n /\ e.n >= 2 /\ e.ident THEN {"EstIdent" \o e.kind \o e.backend} ELSE {})
+      \cup (IF c = "ok" /\ e.k >= 1 /\ e.k <= e.n /\ e.weight = "distance" /\ e.wBeforeD
+            THEN {"EstWeightBeforeDistance" \o e.kind} ELSE {})
+      \cup (IF c = "ok" /\ e.viaFields THEN {"EstViaFields"} ELSE {})
+      \cup (IF c = "ok" /\ e.defaultMetric THEN {"EstDefaultMetric"} ELSE {})
+
 EstStep(e) ==
     IF ~EstFits(e) THEN Account(e, "ok", One({"KnnPredict", "EstSkipped"}))
-    ELSE LET c == EstClause(e) IN Account(e, c, One({"KnnPredict"}) @@ EstHits(e, c))
+    ELSE LET c == EstClause(e) IN Account(e, c, One(EstTags(e, c)) @@ EstHits(e, c))
 
 Step ==
     LET e == Rec[l] IN
